@@ -617,6 +617,8 @@ hwloc__xml_import_userdata(hwloc_topology_t topology,
 	  free(decoded_buffer);
 	  return -1;
 	}
+	/* the import callback is documented to get length characters followed by a null byte */
+	decoded_buffer[length] = '\0';
 	topology->userdata_import_cb(topology, obj, name, decoded_buffer, length);
 	free(decoded_buffer);
       }
